@@ -5,6 +5,7 @@ import (
 	"time"
 
 	"github.com/superfly/macaroon"
+	"github.com/superfly/macaroon/bundle"
 	"github.com/superfly/macaroon/flyio"
 	"github.com/superfly/macaroon/resset"
 
@@ -531,6 +532,18 @@ func genC17(c *ctx) {
 			}
 		}
 		st.Add(cse)
+		// the bundle layer computes the expiry of a verified token on its own: same answer required
+		bexp := (&bundle.VerifiedMacaroon{Caveats: gs}).Expiration()
+		bcse := &cs.Case{Coq: coqw.App("KExpiration", setCoq, coqw.Z(bexp.Unix()), coqw.Z(int64(bexp.Nanosecond()))),
+			Desc: desc("bundle.VerifiedMacaroon.Expiration", map[string]any{"impl_unix": bexp.Unix(), "impl_nsec": bexp.Nanosecond()}), Class: "expiration/bundle", Nontrivial: true}
+		if !bexp.Equal(exp) {
+			bcse.OracleFail = fmt.Sprintf("bundle.VerifiedMacaroon.Expiration (%v) and Macaroon.Expiration (%v) disagree on the same caveats", bexp.Unix(), exp.Unix())
+		} else if bexp.Before(realNow.Add(-time.Minute)) {
+			if e := gs.Validate(&flyio.Access{OrgID: pN(1), Action: 0}); e == nil {
+				bcse.OracleFail = "verified token's Expiration is in the past but its caveats still clear a request"
+			}
+		}
+		st.Add(bcse)
 		// DangerousUserID
 		uid, uerr := flyio.DangerousUserID(gs)
 		st.Add(&cs.Case{Coq: coqw.App("KUserID", setCoq, coqw.Bool(uerr == nil), coqw.N(uid)),
